@@ -120,8 +120,78 @@ def judge(res, rc, eng, table, dlm, policy, encoding=None, line_sep='\n'):
     res.outcome((rep, err is None))
 
 
+def run_js_shard(sh, res):
+    """rbql-js writer -> rbql-js reader (stream and bulk) on all small tables; same oracle"""
+    from vf import js
+    if not js.available():
+        res.feat('js_skipped')
+        return
+    o1, o2 = sh['o']
+    pol, dlm = sh['cfg']
+    syms = field_alphabet(dlm, o1, o2)
+    F = list(strings(syms, 2))
+    tables = [[[f]] for f in F] + [[[f, g]] for f in F for g in F[:sh['pair_limit']]] + [[[f], [g, f]] for f in F[:10] for g in F[:10]] + [[[None, f]] for f in F[:10]]
+    batch = [{'op': 'write', 'table': t, 'encoding': 'utf-8', 'dlm': dlm, 'policy': pol} for t in tables]
+    outs = js.run_batch(batch)
+    rbatch, rmeta = [], []
+    for t, out in zip(tables, outs):
+        res.evaluations += 1
+        res.traces += 1
+        res.states += 1
+        res.transitions += 1
+        case = {'lang': 'js', 'table': t, 'dlm': dlm, 'policy': pol}
+        has_none = any(f is None for r in t for f in r)
+        if 'error' in out:
+            if representable(t, dlm, pol):
+                res.violation('js:roundtrip-mismatch', case, 'written', out)
+            continue
+        ww = out.get('warnings', [])
+        if has_none and not any('null' in w or 'None' in w for w in ww):
+            res.violation('js:silent-none', case, 'warning about null', ww)
+        if pol in ('simple', 'whitespace') and dlm and any(isinstance(f, str) and dlm in f for r in t for f in r) and not any('separator' in w for w in ww):
+            res.violation('js:silent-delimiter-in-field', case, 'warning about separator', ww)
+        if representable(t, dlm, pol):
+            if ww:
+                res.violation('js:roundtrip-mismatch', case, {'writer_warnings': []}, ww)
+            for mode in ('stream', 'bulk'):
+                c = {'op': 'read', 'mode': mode, 'encoding': 'utf-8', 'dlm': dlm, 'policy': pol, 'has_header': False, 'comment_prefix': None}
+                if mode == 'bulk':
+                    c['hex'] = out['hex']
+                else:
+                    c['pieces'] = [out['hex']] if out['hex'] else []
+                rbatch.append(c)
+                rmeta.append((t, mode))
+    routs = js.run_batch(rbatch)
+    for (t, mode), out in zip(rmeta, routs):
+        exp = norm_rfc(t) if pol == 'quoted_rfc' else t
+        ragged = len(set(len(r) for r in t)) > 1
+        warns = [w for w in out.get('warnings', []) if not (ragged and 'not consistent' in w)]
+        res.evaluations += 1
+        res.traces += 1
+        res.nontrivial += 1
+        res.feat('js_roundtrips')
+        if 'error' in out or out.get('records') != exp or warns:
+            res.violation('js:roundtrip-mismatch', {'lang': 'js', 'table': t, 'dlm': dlm, 'policy': pol, 'read_mode': mode}, {'records': exp, 'warnings': []}, out)
+    if sh.get('bigfile'):
+        # CRLF output larger than the 64 KiB stream chunk: every alignment of the CR/LF pair against the chunk boundary
+        big = [[['p' * (1 + shift), 'q']] + [['aaaa', 'b']] * 9000 for shift in range(8)]
+        wouts = js.run_batch([{'op': 'write', 'table': t, 'encoding': 'utf-8', 'dlm': dlm, 'policy': pol, 'line_separator': '\r\n'} for t in big])
+        routs2 = js.run_batch([{'op': 'read', 'mode': 'file_stream', 'hex': w.get('hex', ''), 'encoding': 'utf-8', 'dlm': dlm, 'policy': pol, 'has_header': False, 'comment_prefix': None} for w in wouts])
+        for t, out in zip(big, routs2):
+            res.evaluations += 1
+            res.traces += 1
+            res.feat('js_bigfile_roundtrips')
+            if 'error' in out or out.get('records') != t or out.get('warnings'):
+                res.violation('js:roundtrip-mismatch', {'lang': 'js', 'bigfile_rows': len(t), 'first_row': t[0], 'line_separator': 'CRLF', 'dlm': dlm, 'policy': pol},
+                              {'n_records': len(t)}, {'n_records': len(out.get('records') or []), 'warnings': out.get('warnings'), 'error': out.get('error'), 'tail': (out.get('records') or [])[-2:]})
+    res.sample({'js_roundtrip_tables': len(tables), 'dlm': dlm, 'policy': pol})
+
+
 def run_shard(sh):
     res = core.Result()
+    if sh['kind'] == 'js':
+        run_js_shard(sh, res)
+        return res
     rc, eng = tree.csvmod(), tree.engine()
     o1, o2 = sh['o']
     pol, dlm = sh['cfg']
@@ -227,7 +297,10 @@ def main(tier, seed):
             shards.append({'kind': 'len3', 'cfg': cfg, 'o': o, 'n': 5})
     for cfg in (('simple', ','), ('quoted', ','), ('quoted_rfc', ','), ('simple', '\t'), ('quoted', ';'), ('monocolumn', '')):
         shards.append({'kind': 'latin1', 'cfg': cfg, 'o': ['o', 'e']})
-    shards.sort(key=lambda s: {'pairs3': 0, 'pairs2': 1, 'shape': 2, 'len3': 3, 'latin1': 4, 'long': 2}[s['kind']])
+    for cfg in configs():
+        if cfg[0] != 'monocolumn':
+            shards.append({'kind': 'js', 'cfg': cfg, 'o': o, 'pair_limit': 73 if tier == 'thorough' else 24, 'bigfile': cfg in (('quoted', ','), ('simple', '\t'))})
+    shards.sort(key=lambda s: {'pairs3': 0, 'pairs2': 1, 'shape': 2, 'len3': 3, 'latin1': 4, 'long': 2, 'js': 1}[s['kind']])
     res = core.run_shards('vf.checks.c10', shards)
     return core.finish(PID, tier, seed, res, t0,
         rule='tables over the field alphabet {quote, delimiter characters, space, tab, CR, LF, ordinary, non-ASCII}: all 1-2 field rows over fields <= 2 chars, fields of length 3 (thorough 4; and all 2-field rows over fields <= 3) '
@@ -235,7 +308,7 @@ def main(tier, seed):
              'non-trivial = representable by the reference writer/reader pair (then the real pair must round-trip with no warnings)',
         assumptions=['representable is decided by RefCSV (ref_read(ref_write(t)) == t, CR/CRLF normalised to LF under quoted_rfc)', 'no leading BOM character in the first field'],
         extra={'configurations': len(configs()), 'ordinary': o},
-        min_features={'representable': 50000, 'unrepresentable': 10000, 'rfc_linebreak_fields': 1000, 'delimiter_in_simple_field': 1000, 'latin1_cases': 1000, 'linesep_encoding_cases': 1000, 'long_field_cases': 500})
+        min_features={'representable': 50000, 'unrepresentable': 10000, 'rfc_linebreak_fields': 1000, 'delimiter_in_simple_field': 1000, 'latin1_cases': 1000, 'linesep_encoding_cases': 1000, 'long_field_cases': 500, 'js_roundtrips': 5000})
 
 
 def replay(rep):
